@@ -29,6 +29,8 @@ class LxmlEventHandler(XmlHandler):
         elif self.parser.config.process_xinclude:
             tree = etree.parse(source, base_url=self.parser.config.base_url)  # nosec
             tree.xinclude()
+            # Comments and processing instructions split the text nodes
+            etree.strip_tags(tree, etree.Comment, etree.ProcessingInstruction)
             ctx = etree.iterwalk(tree, EVENTS)
         else:
             ctx = etree.iterparse(
